@@ -347,7 +347,7 @@ func splitWeightAmongGateways(weight uint32, gateways []model.NetworkGateway, ga
 	// Spread the weight across the gateways.
 	weightPerGateway := weight / uint32(len(gateways))
 	for _, gateway := range gateways {
-		gatewayWeights[gateway] += weightPerGateway
+		gatewayWeights[gateway], _ = addUint32(gatewayWeights[gateway], weightPerGateway)
 	}
 }
 
